@@ -21,8 +21,12 @@ type Op struct {
 	Els     []string `json:"els,omitempty"`     // OnElements(...)
 	ElRe    string   `json:"elre,omitempty"`    // OnElementsMatching(...)
 	NoAttrs bool     `json:"noattrs,omitempty"` // chain carries .AllowNoAttrs()
-	B       bool     `json:"b,omitempty"`
-	Ints    []int    `json:"ints,omitempty"` // sandbox values
+	// a second scope call on the SAME builder value (b.OnElements(..); b.Globally()), attr chains only
+	Scope2 string   `json:"scope2,omitempty"`
+	Els2   []string `json:"els2,omitempty"`
+	ElRe2  string   `json:"elre2,omitempty"`
+	B      bool     `json:"b,omitempty"`
+	Ints   []int    `json:"ints,omitempty"` // sandbox values
 }
 
 type Recipe struct {
@@ -55,6 +59,14 @@ func (o Op) String() string {
 		fmt.Fprintf(&sb, ".onre(%s)", o.ElRe)
 	case "glob":
 		sb.WriteString(".globally")
+	}
+	switch o.Scope2 {
+	case "els":
+		fmt.Fprintf(&sb, ".THEN.on(%s)", strings.Join(o.Els2, ","))
+	case "elsre":
+		fmt.Fprintf(&sb, ".THEN.onre(%s)", o.ElRe2)
+	case "glob":
+		sb.WriteString(".THEN.globally")
 	}
 	if len(o.Ints) > 0 {
 		fmt.Fprintf(&sb, "%v", o.Ints)
@@ -240,6 +252,14 @@ func (in *Instance) Steps(o Op) []func() {
 			steps = append(steps, func() { b.Globally() })
 		default:
 			panic("harness: attr chain without scope")
+		}
+		switch o.Scope2 {
+		case "els":
+			steps = append(steps, func() { b.OnElements(o.Els2...) })
+		case "elsre":
+			steps = append(steps, func() { b.OnElementsMatching(in.re(o.ElRe2)) })
+		case "glob":
+			steps = append(steps, func() { b.Globally() })
 		}
 		return steps
 	case "AllowStyles":
